@@ -36,11 +36,13 @@ type c09Gen struct {
 	oldTime bool
 	fresh   bool
 	handover bool
+	forceNext func(cur []common.Address) []common.Address // boundary histories: the list the next epoch header announces
+	forceTime func(parent uint64) uint64                   // boundary histories: time stamp of the next header
 }
 
 func newC09Gen(r *Rec, w *c09World) *c09Gen {
 	g := &c09Gen{r: r, w: w, keyOf: map[common.Address]*ecdsa.PrivateKey{}}
-	for len(g.keys) < 48 {
+	for len(g.keys) < 110 {
 		b := make([]byte, 32)
 		r.Rng.Read(b)
 		k, err := crypto.ToECDSA(b)
@@ -858,7 +860,7 @@ func (g *c09Gen) directedTwin(name string) {
 
 // directedReorg: epoch 4, validators k0..k2, client created at height 4; branch A = 5 (k1), 6 (k0); upgrade to ANOTHER
 // header at height 4 (other root); branch B = 5 (k1), 6 (k2), 7 (k0) with other roots over the occupied heights 5, 6.
-func (g *c09Gen) directedReorg() {
+func (g *c09Gen) directedReorg(name string, otherRev bool) {
 	var ops []string
 	emit := func(op string) string {
 		ops = append(ops, op)
@@ -903,6 +905,13 @@ func (g *c09Gen) directedReorg() {
 			h.Difficulty = []byte{2}
 		}
 		g.seal(h, signer)
+		if otherRev && tag == 'B' { // the same header under revision 7 first (must be refused), then under the head's revision
+			o := *h
+			o.Height.RevisionNumber = 7
+			if strings.HasPrefix(emit(c09UpdateOp(bt, 56, &o)), "ok") {
+				return "ok"
+			}
+		}
 		return emit(c09UpdateOp(bt, 56, h))
 	}
 	emit(c09CreateOp(56, 4, g.tp, 100, c09AddrBytes(vals), mkHead('A')))
@@ -913,18 +922,19 @@ func (g *c09Gen) directedReorg() {
 	block('B', k[2], 115)
 	last := block('B', k[0], 118)
 	if strings.HasPrefix(last, "ok") {
-		g.r.Count("directed.reorg.last-accepted")
+		g.r.Count("directed." + name + ".last-accepted")
 	} else {
-		g.r.Count("directed.reorg.last-rejected")
+		g.r.Count("directed." + name + ".last-rejected")
 	}
 	emit("cons")
 	if d := os.Getenv("VERIF_C09_WRITE_CORPUS"); d != "" {
-		_ = os.WriteFile(filepath.Join(d, "reorg.ops"), []byte("# C09 directed history: reorg (see harness/c09_gen_test.go)\n"+strings.Join(ops[1:], "\n")+"\n"), 0o644)
+		_ = os.WriteFile(filepath.Join(d, name+".ops"), []byte("# C09 directed history: "+name+" (see harness/c09_gen_test.go)\n"+strings.Join(ops[1:], "\n")+"\n"), 0o644)
 	}
 }
 
 func (g *c09Gen) allDirected() {
-	g.directedReorg()
+	g.directedReorg("reorg", false)
+	g.directedReorg("reorg-other-revision", true)
 	g.directedTwin("twin-seen")
 	g.directedTwin("twin-dry")
 	g.directedTwin("twin-forgery-first")
@@ -1225,7 +1235,11 @@ func (g *c09Gen) nextValid() (*bsctypes.Header, bool) {
 	}
 	next := cur
 	if num%g.epoch == 0 {
-		next = g.nextSet(cur)
+		if g.forceNext != nil {
+			next = g.forceNext(cur)
+		} else {
+			next = g.nextSet(cur)
+		}
 	}
 	var elig []common.Address
 	for _, a := range set {
@@ -1233,6 +1247,13 @@ func (g *c09Gen) nextValid() (*bsctypes.Header, bool) {
 		for d := uint64(1); d <= uint64(n/2) && d <= num; d++ {
 			if who, ok := g.w.sealedBy[num-d]; ok && who == a {
 				rec = true
+			}
+		}
+		if num < uint64(n/2+1) { // number < limit: every recorded sealer is excluded
+			for _, who := range g.w.sealedBy {
+				if who == a {
+					rec = true
+				}
 			}
 		}
 		if _, ok := g.keyOf[a]; ok && !rec {
@@ -1251,6 +1272,9 @@ func (g *c09Gen) nextValid() (*bsctypes.Header, bool) {
 		}
 	}
 	h := g.build(cs, signer, next)
+	if g.forceTime != nil {
+		h.Time = g.forceTime(cs.Header.Time)
+	}
 	g.seal(h, signer)
 	return h, true
 }
@@ -1291,6 +1315,7 @@ func (g *c09Gen) reorg(n0 int, epoch uint64, startK uint64) {
 		return
 	}
 	r.Count("reorg.histories")
+	otherRev := false
 	feed := func(k int) int {
 		done := 0
 		for i := 0; i < k; i++ {
@@ -1298,6 +1323,16 @@ func (g *c09Gen) reorg(n0 int, epoch uint64, startK uint64) {
 			h, ok := g.nextValid()
 			if !ok {
 				break
+			}
+			if otherRev && r.Rng.Intn(2) == 0 { // the same valid header under another revision number (the seal does not cover it)
+				o := *h
+				o.Height.RevisionNumber = h.Height.RevisionNumber + uint64(1+r.Rng.Intn(3))
+				if strings.HasPrefix(g.emit(c09UpdateOp(g.bt, g.chainID, &o)), "ok") {
+					r.Count("reorg.other-revision.accepted")
+					done++
+					continue
+				}
+				r.Count("reorg.other-revision.refused")
 			}
 			if !strings.HasPrefix(g.emit(c09UpdateOp(g.bt, g.chainID, h)), "ok") {
 				r.Count("reorg.valid-refused")
@@ -1361,6 +1396,7 @@ func (g *c09Gen) reorg(n0 int, epoch uint64, startK uint64) {
 			return
 		}
 		r.Count("reorg.upgrade." + kind)
+		otherRev = r.Rng.Intn(2) == 0
 		g.maybeRestart()
 		r.Nontrivial(fmt.Sprintf("reorg %s u-start=%d head-u=%d n=%d", kind, int64(u)-int64(start), headNum-u+0, len(cur)))
 		// branch B: over every occupied height and a little beyond
@@ -1398,6 +1434,233 @@ func (g *c09Gen) maybeRestart() {
 	}
 }
 
+// ---- boundary histories (class B of the hardening round) -------------------------------------------------------
+//   height  : the chain crosses 2^31, 2^32, 2^53, 2^63 (big.NewInt(int64(n)) turns negative: Header.Hash degenerates),
+//             and 2^64-1 -> 0 (uint64 wrap of number+1, number-limit, number%epoch)
+//   epoch   : epoch 1 (every header is an epoch header), 2, 2^63, 2^64-1
+//   valset  : sets of 1, 2, 21, 41, 100 validators, announced and in force (recents window up to 50)
+//   extra   : epoch headers with exactly one validator; truncated last address (refused)
+//   time    : header time = parent's, parent+3, 2^62, 2^63, 2^64-1 (time+trustingPeriod wraps: the client expires)
+//   chainid : 2^31, 2^32, 2^63-1 (admitted), 2^63, 2^64-1 (refused by Validate: the seal hash takes int64(chainId))
+
+type c09Boundary struct {
+	class   string
+	name    string
+	chainID uint64
+	epoch   uint64
+	rev     uint64
+	start   uint64
+	n0      int
+	steps   int
+	next    func(cur []common.Address) []common.Address
+	time    func(i int, parent uint64) uint64
+	trunc   bool
+	expectCreate bool
+}
+
+func (g *c09Gen) boundary(b c09Boundary) {
+	r := g.r
+	g.emit("reset")
+	g.chainID, g.epoch, g.tp, g.btStep, g.oldTime, g.fresh, g.handover = b.chainID, b.epoch, 999_999_999, 3, false, false, false
+	g.bt = 1_700_000_000
+	vals := g.subset(b.n0)
+	pend := vals
+	if b.next != nil {
+		pend = b.next(vals)
+	}
+	extra := g.rnd(32)
+	for _, a := range pend {
+		extra = append(extra, a.Bytes()...)
+	}
+	extra = append(extra, make([]byte, 65)...)
+	sealer := vals[r.Rng.Intn(len(vals))]
+	head := &bsctypes.Header{
+		Height: clienttypes.NewHeight(b.rev, b.start), ParentHash: g.rnd(32), UncleHash: c09UncleHash.Bytes(), Coinbase: sealer.Bytes(),
+		Root: g.rnd(32), TxHash: g.rnd(32), ReceiptHash: g.rnd(32), Difficulty: []byte{2}, GasLimit: 30_000_000, GasUsed: 21000, Time: g.bt - 5,
+		Extra: extra, MixDigest: make([]byte, 32), Nonce: make([]byte, 8),
+	}
+	g.seal(head, sealer)
+	tag := "boundary." + b.class + "." + b.name
+	if !strings.HasPrefix(g.emit(c09CreateOp(g.chainID, g.epoch, g.tp, g.bt, c09AddrBytes(vals), head)), "ok") {
+		r.Count(tag + ".create-refused")
+		return
+	}
+	r.Count(tag + ".created")
+	g.forceNext = b.next
+	defer func() { g.forceNext, g.forceTime = nil, nil }()
+	for i := 0; i < b.steps; i++ {
+		g.bt += 3
+		if b.time != nil {
+			ii := i
+			g.forceTime = func(parent uint64) uint64 { return b.time(ii, parent) }
+		}
+		h, ok := g.nextValid()
+		if !ok {
+			r.Count(tag + ".stuck")
+			break
+		}
+		if b.class == "valset" { // the window edge and a random distance inside the window, for sets up to 100
+			g.w.sel(0)
+			cs0 := g.w.clientState(g.w.ctx)
+			pcs := *cs0
+			pcs.Validators = g.w.presVals
+			members := c09Distinct(pcs.Validators)
+			n := len(members)
+			num := h.Height.RevisionHeight
+			for _, d := range []uint64{uint64(n / 2), uint64(1 + r.Rng.Intn(n/2+1))} {
+				if d == 0 || d > uint64(n/2) || d > num {
+					continue
+				}
+				who, ok := g.w.sealedBy[num-d]
+				if !ok || !members[who] {
+					continue
+				}
+				nearest := true
+				for dd := uint64(1); dd < d; dd++ {
+					if w2, ok2 := g.w.sealedBy[num-dd]; ok2 && w2 == who {
+						nearest = false
+					}
+				}
+				if _, okk := g.keyOf[who]; !okk || !nearest {
+					continue
+				}
+				var nx []common.Address
+				if num%g.epoch == 0 {
+					for j := 32; j+20 <= len(h.Extra)-65; j += 20 {
+						nx = append(nx, common.BytesToAddress(h.Extra[j:j+20]))
+					}
+				}
+				rh := g.build(&pcs, who, nx)
+				g.seal(rh, who)
+				if strings.HasPrefix(g.emit(c09UpdateOp(g.bt, g.chainID, rh)), "ok") {
+					r.Count("boundary.valset.recent.accepted")
+				} else {
+					r.Count("boundary.valset.recent.refused")
+					if n >= 41 {
+						r.Count("boundary.valset.recent.refused.large-set")
+					}
+				}
+			}
+			g.w.sel(0)
+			if cs1 := g.w.clientState(g.w.ctx); cs1 != nil && cs1.Header.Height.RevisionHeight >= num {
+				continue // (a recent signer was accepted: the oracle has reported it; go on from the new head)
+			}
+		}
+		if b.trunc && h.Height.RevisionHeight%g.epoch == 0 && len(h.Extra) >= 97+20 {
+			// the same epoch header with its last address truncated by 1 / extended by 1 byte: refused
+			for _, d := range []int{-1, 1} {
+				t := *h
+				body := append([]byte{}, h.Extra[:len(h.Extra)-65]...)
+				if d < 0 {
+					body = body[:len(body)-1]
+				} else {
+					body = append(body, 0x2f)
+				}
+				t.Extra = append(body, make([]byte, 65)...)
+				g.seal(&t, common.BytesToAddress(h.Coinbase))
+				if strings.HasPrefix(g.emit(c09UpdateOp(g.bt, g.chainID, &t)), "ok") {
+					r.Count("boundary.extra.truncated-address.accepted")
+				} else {
+					r.Count("boundary.extra.truncated-address.refused")
+				}
+			}
+		}
+		if !strings.HasPrefix(g.emit(c09UpdateOp(g.bt, g.chainID, h)), "ok") {
+			r.Count(tag + ".refused")
+			break
+		}
+		r.Count(tag + ".accepted")
+		r.Count("boundary." + b.class + ".accepted")
+		if b.start > 1<<63 && h.Height.RevisionHeight < 1<<32 {
+			r.Count("boundary.height.after-wrap-to-0.accepted")
+		}
+		if h.Height.RevisionHeight%g.epoch == 0 && len(h.Extra) == 97+20 {
+			r.Count("boundary.extra.one-validator.accepted")
+		}
+		if i%5 == 4 && !(b.class == "height" && b.name == "2^64-1") {
+			// (after the wrap the client sits at height 0-0, whose consensus state the genesis validation refuses:
+			// the export of that — unreachable — state is not importable)
+			g.maybeRestart()
+		}
+	}
+	g.emit("cons")
+}
+
+func (g *c09Gen) allBoundaries() {
+	r := g.r
+	pick := func(n int) func([]common.Address) []common.Address {
+		return func([]common.Address) []common.Address { return g.subset(n) }
+	}
+	// heights
+	for _, t := range []struct {
+		name string
+		at   uint64
+	}{{"2^31", 1 << 31}, {"2^32", 1 << 32}, {"2^53", 1 << 53}, {"2^63", 1 << 63}, {"2^64-1", ^uint64(0)}} {
+		e := []uint64{1, 2, 3, 7}[r.Rng.Intn(4)]
+		start := (t.at - 3) / e * e
+		steps := int(t.at-start) + 4
+		if t.at == ^uint64(0) {
+			steps = int(t.at-start) + 1 + int(e) + 3 // wraps to 0, 1, ...
+		}
+		n0 := []int{1, 3, 5}[r.Rng.Intn(3)]
+		if t.at == ^uint64(0) {
+			n0 = 5 // (after the wrap number < limit excludes every recorded sealer: blocks 0 and 1 are sealed by the two
+			// validators without a record, then the chain stalls — upstream Parlia has the same rule)
+		}
+		g.boundary(c09Boundary{class: "height", name: t.name, chainID: 56, epoch: e, start: start, n0: n0, steps: steps})
+	}
+	// epochs
+	g.boundary(c09Boundary{class: "epoch", name: "1", chainID: 56, epoch: 1, start: uint64(5 + r.Rng.Intn(1000)), n0: 1 + r.Rng.Intn(3), steps: 10})
+	g.boundary(c09Boundary{class: "epoch", name: "1-single-handover", chainID: 56, epoch: 1, start: uint64(5 + r.Rng.Intn(1000)), n0: 1, steps: 10,
+		next: func(cur []common.Address) []common.Address { // epoch 1, one validator: every header is epoch header AND switch point
+			for _, i := range r.Rng.Perm(len(g.addrs)) {
+				if len(cur) == 0 || g.addrs[i] != cur[0] {
+					return []common.Address{g.addrs[i]}
+				}
+			}
+			return cur
+		}})
+	g.boundary(c09Boundary{class: "epoch", name: "2", chainID: 56, epoch: 2, start: uint64(2 * (1 + r.Rng.Intn(1000))), n0: 1 + r.Rng.Intn(5), steps: 10})
+	g.boundary(c09Boundary{class: "epoch", name: "2^63", chainID: 56, epoch: 1 << 63, rev: 1, start: 0, n0: 3, steps: 8})
+	g.boundary(c09Boundary{class: "epoch", name: "2^63@2^63", chainID: 56, epoch: 1 << 63, start: 1 << 63, n0: 3, steps: 6})
+	g.boundary(c09Boundary{class: "epoch", name: "2^64-1", chainID: 56, epoch: ^uint64(0), rev: 1, start: 0, n0: 3, steps: 8})
+	g.boundary(c09Boundary{class: "epoch", name: "2^64-1@2^64-1", chainID: 56, epoch: ^uint64(0), start: ^uint64(0), n0: 2, steps: 6})
+	// validator sets
+	for _, n := range []int{1, 2, 21, 41, 100} {
+		n := n
+		e := uint64(4 + r.Rng.Intn(5))
+		g.boundary(c09Boundary{class: "valset", name: fmt.Sprintf("announce-%d", n), chainID: 97, epoch: e, start: e * uint64(1+r.Rng.Intn(50)), n0: 3,
+			next: pick(n), steps: int(e) + n/2 + 8, trunc: true})
+		g.boundary(c09Boundary{class: "valset", name: fmt.Sprintf("start-%d", n), chainID: 97, epoch: uint64(n/2 + 3), start: uint64(n/2+3) * uint64(1+r.Rng.Intn(50)), n0: n,
+			next: pick([]int{1, 2, 100, 41}[r.Rng.Intn(4)]), steps: n/2 + 12, trunc: true})
+	}
+	// time stamps
+	for _, t := range []struct {
+		name string
+		f    func(i int, parent uint64) uint64
+	}{
+		{"equal-parent", func(i int, p uint64) uint64 { return p }},
+		{"parent+period", func(i int, p uint64) uint64 { return p + 3 }},
+		{"2^62", func(i int, p uint64) uint64 { return 1<<62 + uint64(i) }},
+		{"2^63", func(i int, p uint64) uint64 { return 1<<63 + uint64(i) }},
+		{"2^64-1-at-4", func(i int, p uint64) uint64 {
+			if i == 4 {
+				return ^uint64(0) // time + trusting period wraps: the client expires
+			}
+			return p + 3
+		}},
+	} {
+		g.boundary(c09Boundary{class: "time", name: t.name, chainID: 714, epoch: 5, start: 5 * uint64(1+r.Rng.Intn(100)), n0: 3, steps: 8, time: t.f})
+	}
+	// chain ids
+	for _, c := range []struct {
+		name string
+		id   uint64
+	}{{"2^31", 1 << 31}, {"2^32", 1 << 32}, {"2^63-1", 1<<63 - 1}, {"2^63", 1 << 63}, {"2^64-1", ^uint64(0)}} {
+		g.boundary(c09Boundary{class: "chainid", name: c.name, chainID: c.id, epoch: 4, start: 4 * uint64(1+r.Rng.Intn(100)), n0: 3, steps: 5})
+	}
+}
+
 func c09Epochs(r *Rec) uint64 {
 	return []uint64{2, 3, 4, 5, 7, 10, 11, 12, 16, 20, 30, 50, 100, 200}[r.Rng.Intn(14)]
 }
@@ -1424,6 +1687,7 @@ func TestC09(t *testing.T) {
 	}
 	g := newC09Gen(r, w)
 	g.allDirected()
+	g.allBoundaries()
 	for j := 0; j < 3; j++ { // creations that must be refused: height 0-0, a head announcing no validators
 		g.history(c09Plan{n0: 3 + j, epoch: 4, tp: 999_999_999, btStep: 3, startK: 0, steps: 1})
 		g.history(c09Plan{n0: 3 + j, epoch: 4, tp: 999_999_999, btStep: 3, startK: 1, emptyHead: true, steps: 1})
